@@ -263,7 +263,9 @@ def cases(draw, kind=None):
         k = draw(st.sampled_from(["doc", "doc", "doc", "doc", "dir", "empty", "hidden", "macosx", "nested", "unsupported"]))
         if k == "doc":
             fmt = draw(st.sampled_from(MEMBER_FORMATS))
-            entries.append({"k": "doc", "name": uniq(f"{d}m{i}.{fmt}"), "fmt": fmt, "seed": seed0 + i})
+            # base names too carry non-ASCII text, incl. code points whose UTF-16 form has a zero byte next to a Latin letter's zero byte (U+4E00, U+0100)
+            stem = draw(st.sampled_from(["m", "m", "m", "plan\u4e00", "a\u0100", "\u00dcn\u00ef", "\u6587\u66f8", "q\u0400z"]))
+            entries.append({"k": "doc", "name": uniq(f"{d}{stem}{i}.{fmt}"), "fmt": fmt, "seed": seed0 + i})
         elif k == "dir":
             entries.append({"k": "dir", "name": uniq(f"{d}folder{i}")})
         elif k == "empty":
